@@ -3,6 +3,7 @@ package eng
 import (
 	"go/constant"
 	"go/token"
+	"go/types"
 
 	"golang.org/x/tools/go/ssa"
 )
@@ -274,6 +275,11 @@ func EdgeFacts(e Edge) []Fact {
 	if !ok {
 		return nil
 	}
+	return ExpandFact(f)
+}
+
+// ExpandFact returns f and the facts it implies (the operands of a short-circuit value).
+func ExpandFact(f Fact) []Fact {
 	var out []Fact
 	seen := map[ssa.Value]bool{}
 	var expand func(f Fact, depth int)
@@ -478,4 +484,51 @@ func Induction(v ssa.Value) (*ssa.Phi, bool) {
 		}
 	}
 	return nil, false
+}
+
+// BoundsPredicate reports whether g is a predicate "index i is valid for slice s": a loop-free boolean function of
+// the module whose true result implies params[ii] >= 0 and params[ii] < len(params[si]). It returns the two
+// parameter positions.
+func BoundsPredicate(g *ssa.Function) (si, ii int, ok bool) {
+	if g == nil || g.Blocks == nil || !InModule(g) || g.Signature.Results().Len() != 1 {
+		return 0, 0, false
+	}
+	if bt, isB := g.Signature.Results().At(0).Type().Underlying().(*types.Basic); !isB || bt.Kind() != types.Bool {
+		return 0, 0, false
+	}
+	rets := Returns(g)
+	if len(rets) != 1 {
+		return 0, 0, false
+	}
+	facts := ExpandFact(Fact{Cond: rets[0].Results[0], Pos: true})
+	pidx := func(v ssa.Value) int {
+		for i, p := range g.Params {
+			if ssa.Value(p) == v {
+				return i
+			}
+		}
+		return -1
+	}
+	lo := map[int]bool{}
+	hi := map[int]int{}
+	for _, f := range facts {
+		op, x, y, isCmp := f.Cmp()
+		if !isCmp {
+			continue
+		}
+		if k, isC := ConstInt(y); isC && pidx(x) >= 0 && ((op == token.GEQ && k >= 0) || (op == token.GTR && k >= -1)) {
+			lo[pidx(x)] = true
+		}
+		if call, isCall := y.(*ssa.Call); isCall && op == token.LSS && pidx(x) >= 0 {
+			if b, isBi := call.Call.Value.(*ssa.Builtin); isBi && b.Name() == "len" && pidx(call.Call.Args[0]) >= 0 {
+				hi[pidx(x)] = pidx(call.Call.Args[0])
+			}
+		}
+	}
+	for i := range lo {
+		if s, has := hi[i]; has {
+			return s, i, true
+		}
+	}
+	return 0, 0, false
 }
